@@ -172,7 +172,8 @@ func (x *Exec) harrs(st *State, key string, t types.Type) []*HArr {
 		return nil
 	}
 	if _, ok := st.heap[key+cs[0].Suffix]; !ok {
-		return x.installBasesA(st, key, t, fmt.Sprintf("@%d", st.epoch), st.epochAlloc)
+		ep, al := st.epochFor(key)
+		return x.installBasesA(st, key, t, fmt.Sprintf("@%d", ep), al)
 	}
 	hs := make([]*HArr, len(cs))
 	for i, c := range cs {
@@ -204,7 +205,36 @@ func (x *Exec) writeComps(st *State, key string, t types.Type, ref string, v Val
 	for i, h := range hs {
 		h.write(ref, terms[i])
 	}
+	st.bumpWrite(ref, terms)
+}
+
+// bumpWrite advances the heap version seen by heap-reading pure functions.  A write into an object that this activation allocated
+// and whose reference was never stored anywhere is invisible to functions that are not handed the object (counter hvF)
+func (st *State) bumpWrite(target string, vals []string) {
+	for _, v := range vals {
+		if strings.Contains(v, "ref!") {
+			st.escaped = true
+		}
+	}
+	if strings.HasPrefix(target, "ref!") && !st.escaped {
+		st.hvF++
+		return
+	}
 	st.hv++
+}
+
+// heapVersion: the version terms a heap-reading pure function applied to args depends on
+func (st *State) heapVersion(args []string) string {
+	inc := st.escaped
+	for _, a := range args {
+		if strings.Contains(a, "ref!") {
+			inc = true
+		}
+	}
+	if inc {
+		return sInt(int64(st.hv)*100000 + int64(st.hvF))
+	}
+	return sInt(int64(st.hv) * 100000)
 }
 
 // ---------- sub-objects (struct-valued fields are objects of their own) ----------
@@ -352,12 +382,12 @@ func (x *Exec) storeAddr(st *State, a *Addr, v Val) {
 			whole := append([]string{}, l.read(a.Base, a.Idx)...)
 			copy(whole[a.CompLo:a.CompLo+a.CompN], flatten(v))
 			l.ups = append(l.ups, Upd{arr: a.Base, idx: a.Idx, v: whole})
-			st.hv++
+			st.bumpWrite(a.Base, flatten(v))
 			return
 		}
 		l := x.lazyFor(st, a.T)
 		l.ups = append(l.ups, Upd{arr: a.Base, idx: a.Idx, v: flatten(v)})
-		st.hv++
+		st.bumpWrite(a.Base, flatten(v))
 	}
 }
 
@@ -371,13 +401,14 @@ func (x *Exec) lazyFor(st *State, et types.Type) *Lazy {
 	cs := comps(et)
 	x.declZero(et)
 	l := &Lazy{key: key, et: et, base: make([]string, len(cs)), d: x.decls, sorts: make([]string, len(cs))}
+	ep, al := st.epochFor(key)
 	for i, c := range cs {
-		b := fmt.Sprintf("%s@%d", sanitize(key+c.Suffix), st.epoch)
+		b := fmt.Sprintf("%s@%d", sanitize(key+c.Suffix), ep)
 		x.decls.Const(b, "(Array Int (Array Int "+c.Sort+"))")
 		l.base[i] = b
 		l.sorts[i] = c.Sort
 	}
-	x.elemBaseFacts(l.base, cs, st.epochAlloc)
+	x.elemBaseFacts(l.base, cs, al)
 	st.lazy[key] = l
 	return l
 }
@@ -531,9 +562,49 @@ func (x *Exec) havocAll(st *State) {
 	st.epoch = x.epochs
 	st.heap = map[string]*HArr{}
 	st.lazy = map[string]*Lazy{}
+	st.keepFn = nil
 	st.hv++
 	x.bumpAlloc(st)
 	st.epochAlloc = st.alloc
+}
+
+// epochFor: the heap epoch (and its allocation watermark) a not yet materialised key belongs to: the current one unless an
+// earlier "modifies allbut(...)" havoc spared the key
+func (st *State) epochFor(key string) (int, string) {
+	if st.keepFn != nil {
+		if ep, al, ok := st.keepFn(key); ok {
+			return ep, al
+		}
+	}
+	return st.epoch, st.epochAlloc
+}
+
+// havocAllBut: like havocAll, but heap keys under the given prefixes keep their content
+func (x *Exec) havocAllBut(st *State, keep []string) {
+	oldHeap, oldLazy := st.heap, st.lazy
+	prev, pe, pa := st.keepFn, st.epoch, st.epochAlloc
+	x.havocAll(st)
+	for k, h := range oldHeap {
+		if keptKey(keep, k) {
+			st.heap[k] = h
+		}
+	}
+	for k, l := range oldLazy {
+		if keptKey(keep, k) {
+			st.lazy[k] = l
+		}
+	}
+	st.keepFn = func(key string) (int, string, bool) {
+		if !keptKey(keep, key) {
+			return 0, "", false
+		}
+		if prev != nil {
+			if ep, al, ok := prev(key); ok {
+				return ep, al, true
+			}
+		}
+		return pe, pa, true
+	}
 }
 
 func (x *Exec) bumpAlloc(st *State) {
@@ -680,7 +751,7 @@ func (x *Exec) mapPut(st *State, m Val, k Val, v Val) {
 	}
 	l := x.mapLenArr(st, m.T)
 	l.write(m.S, sIte(has, l.read(m.S), sAdd(l.read(m.S), "1")))
-	st.hv++
+	st.bumpWrite(m.S, append([]string{kk}, vt...))
 }
 
 func (x *Exec) mapDelete(st *State, m Val, k Val) {
